@@ -173,7 +173,7 @@ def query_parameters(ctx, mf, reg, tier):
                      "value lists (0..2 cells incl. null / unset / 1-byte value); all scalar fields symbolic (consistency over all levels, "
                      "i32 page size, i64 timestamp, skip_metadata, value and paging-state bytes)",
               backend="BV", assumes=LIB, outside="value lists > 2 cells, paging states > 2 bytes; named values (never produced by the driver)",
-              replay=None)
+              replay=lambda m, tier=tier: replay_params(m, tier))
 
 
 def query_frame(ctx, mf, reg):
@@ -227,7 +227,8 @@ def query_frame(ctx, mf, reg):
     ctx.prove("c09_query_frame_header_and_body", pre_all, z3.And(goals), inputs=inputs, functions=F,
               bounds="QUERY frames for 3 parameter shapes (one with a compressed body): version byte 4, flags = tracing bit (| compression bit), stream 0, "
                      "opcode 0x07, length = body size, body = [long string][parameters]; statement text of 2 symbolic bytes; tracing symbolic",
-              backend="BV", assumes=LIB, outside="LZ4/Snappy bodies themselves (compressor loops, third-party code); set_stream; EXECUTE/BATCH/REGISTER/AUTH_RESPONSE/STARTUP")
+              backend="BV", assumes=LIB, outside="LZ4/Snappy bodies themselves (compressor loops, third-party code); set_stream; EXECUTE/BATCH/REGISTER/AUTH_RESPONSE/STARTUP",
+              replay=lambda m: replay_frames(m))
 
 
 def length_writers(ctx, mf):
@@ -261,3 +262,79 @@ def length_writers(ctx, mf):
         ctx.prove(f"c09_{fname}_refuses_oversize_and_writes_exact_prefix", [], z3.And(goals), inputs=[n],
                   functions=f"types::{fname} [scylla-cql/src/frame/types.rs]", bounds=f"all 2^64 usize lengths: Err iff > {maxv}, else the exact {width}-byte big-endian prefix",
                   backend="BV", assumes=LIB, witness=False)
+
+
+# ------------------------------------------------------------------ native replay (real scylla-cql code, concrete values from the model)
+FRAME_SHAPES = [(0, dict(values=0, cells=[], page=True, paging=None, serial=True, ts=True)),
+                (0, dict(values=1, cells=["val"], page=False, paging=0, serial=False, ts=False)),
+                (1, dict(values=0, cells=[], page=False, paging=None, serial=False, ts=False))]
+CONS = [0, 1, 2, 3, 4, 5, 6, 7, 8, 9, 10]
+
+
+def _concrete(m, shape, tag):
+    def g(name, default=0):
+        v = m.get(name + tag)
+        return default if v is None else v
+    cons = g("consistency") & 0xffff
+    if cons not in CONS: cons = 1
+    serial = g("serial", 8) & 0xffff
+    if serial not in (8, 9): serial = 8
+    ts = g("timestamp"); ts = ts - (1 << 64) if ts >= (1 << 63) else ts
+    page = g("page_size") & 0xffffffff; page = page - (1 << 32) if page >= (1 << 31) else page
+    skip = 1 if m.get("skip_metadata" + tag) else 0
+    pbytes = [g(f"ps{i}") & 0xff for i in range(shape["paging"] or 0)]
+    cells, cellbytes = [], []
+    for i, kind in enumerate(shape.get("cells", [])):
+        if kind == "null": cells.append("n"); cellbytes += [0xff] * 4
+        elif kind == "unset": cells.append("u"); cellbytes += [0xff, 0xff, 0xff, 0xfe]
+        else:
+            x = g(f"val{i}") & 0xff
+            cells.append(f"v{x}"); cellbytes += [0, 0, 0, 1, x]
+    flags = (1 if shape["values"] else 0) | (2 if skip else 0) | (4 if shape["page"] else 0) | (8 if shape["paging"] is not None else 0) | \
+            (0x10 if shape["serial"] else 0) | (0x20 if shape["ts"] else 0)
+    spec = list(cons.to_bytes(2, "big")) + [flags]
+    if shape["values"]: spec += list(shape["values"].to_bytes(2, "big")) + cellbytes
+    if shape["page"]: spec += list((page & 0xffffffff).to_bytes(4, "big"))
+    if shape["paging"] is not None: spec += list(len(pbytes).to_bytes(4, "big")) + pbytes
+    if shape["serial"]: spec += list(serial.to_bytes(2, "big"))
+    if shape["ts"]: spec += list((ts & ((1 << 64) - 1)).to_bytes(8, "big"))
+    paging = "-" if shape["paging"] is None else ("e" if not pbytes else bytes(pbytes).hex())
+    args = f"{cons} {skip} {page if shape['page'] else '-'} {paging} {serial if shape['serial'] else '-'} {ts if shape['ts'] else '-'}"
+    return args, (",".join(cells) if cells else "-"), spec
+
+
+def replay_params(m, tier):
+    from . import native
+    nat = native.Native("core")
+    bad = []
+    for k, shape in enumerate(shapes(tier)):
+        args, cells, spec = _concrete(m, shape, f"_{k}")
+        got = nat.ask(f"query params 0 0 {args} - {cells}")
+        if got != bytes(spec).hex():
+            bad.append({"shape": shape, "native": got, "expected": bytes(spec).hex()})
+    nat.close()
+    return native.record("C09", "query_parameters", {"model": {k: v for k, v in list(m.items())[:40]}, "mismatches": bad[:5]}, bool(bad))
+
+
+def replay_frames(m):
+    from . import native
+    nat = native.Native("core")
+    bad = []
+    for k, (comp, shape) in enumerate(FRAME_SHAPES):
+        args, cells, pspec = _concrete(m, shape, f"_f{k}")
+        text = [(m.get(f"q{i}_{k}") or 0x61) & 0x7f or 0x61 for i in range(2)]     # keep the statement ASCII so it survives as a Rust String
+        for tracing in (0, 1):
+            got = nat.ask(f"query frame {comp} {tracing} {args} {bytes(text).hex()} {cells}")
+            if got in ("ERR", "PANIC", "UNKNOWN"):
+                bad.append({"shape": k, "native": got}); continue
+            g = bytes.fromhex(got)
+            body = list(len(text).to_bytes(4, "big")) + text + pspec
+            want_hdr = [4, (2 if tracing else 0) | (1 if comp else 0), 0, 0, 7]
+            ok = list(g[:5]) == want_hdr and int.from_bytes(g[5:9], "big") == len(g) - 9
+            if not comp:
+                ok = ok and list(g[9:]) == body
+            if not ok:
+                bad.append({"shape": k, "compression": comp, "tracing": tracing, "native": got, "expected_header": bytes(want_hdr).hex(),
+                            "expected_body": None if comp else bytes(body).hex()})
+    nat.close()
+    return native.record("C09", "query_frame", {"mismatches": bad[:5]}, bool(bad))
